@@ -238,6 +238,16 @@ def r4(ctx, R):
             or norm(kw(c[0], "old_name") or ast.Constant(0)) != "self.name" \
             or norm(kw(c[0], "rename_old") or ast.Constant(0)) != "rename_old":
         R.bad(mr, mr.node, "Model.rename does not rename itself through the registry", stmt="rename_model")
+    else:
+        # the registry is keyed by name: the handle must own the entry of its name before it acts by name
+        own = [r_ for r_ in q.raises(mr) if any(
+            q.anorm(mr, ast.parse(t, mode="eval").body).replace(" ", "") in
+            ("self._impl.system.models.get(self.name)isnotself._impl", "self._impl.system.models.get(self.name)isself._impl")
+            for t, l in q.guards_of(mr, r_))]
+        g = q.guards_of(mr, c[0])
+        if not own or q.path_between(mr, c[0], own[0]) or not any("models.get(self.name)" in t for t, l in g):
+            R.bad(mr, c[0], "a handle of a closed model acts on whichever open model now has its name: rename() on the old handle "
+                            "renames the other model")
     cm = ctx.func("System.close_model")
     rel = q.calls(cm, name="del_all_spec")
     dels = [st for st, t in q.subscript_writes(cm, ("models", "_models")) if isinstance(st, ast.Delete)]
